@@ -102,7 +102,9 @@ impl<'a> Interp<'a> {
             sim: Sim::new(&h.cfg),
             model: {
                 let mut m = Model::new(&h.cfg);
-                m.strict_resub = flags.strict_resub;
+                // R7 was repaired in /repo: a repeated subscription takes the new QoS over, everywhere
+                let _ = flags.strict_resub;
+                m.strict_resub = true;
                 m
             },
             views: Vec::new(),
@@ -263,7 +265,11 @@ impl<'a> Interp<'a> {
                     }
                     for (f, q) in filters {
                         let existing = eff.iter().find(|x| x.0 == *f);
-                        if av.resub_qos && existing.is_some_and(|x| x.1 != *q) {
+                        // R7 (repeated subscription with another QoS) was repaired; for persistent
+                        // sessions the case stays out together with R17: which QoS a message
+                        // re-sent after a resume carries is not stated by any listed property
+                        let persistent = av.persistent_unsub && !self.model.conns[s].clean;
+                        if (av.resub_qos || persistent) && existing.is_some_and(|x| x.1 != *q) {
                             self.stats.excluded_known += 1;
                             return Ok(());
                         }
